@@ -16,7 +16,8 @@ ks = []
 for a in sys.argv[2:]:
     if a.startswith("--also="): also = a[7:].split(",")
     else: ks.append(a)
-W = f"/tmp/m-{pid}"
+PREFIX = os.environ.get("SEED_PREFIX", "m"); OFFSET = int(os.environ.get("SEED_OFFSET", "0"))
+W = f"/tmp/{PREFIX}-{pid}"
 S = f"{W}/seeded"
 if not ks:
     ks = sorted(re.findall(r"change(\d+)\.diff", " ".join(os.listdir(S))))
@@ -24,7 +25,7 @@ for k in ks:
     print(f"== {pid} change {k}")
     diff = f"{S}/change{k}.diff"
     cmd = open(f"{S}/demo{k}.cmd").read().strip()
-    rec = dict(property=pid, change=int(k))
+    rec = dict(property=pid, change=int(k) + OFFSET)
     rc, out = sh("git checkout -- . && git status --short | grep -v '^??' | wc -l", W)
     # baseline demo passes
     rc0, out0 = sh(cmd, W)
@@ -59,7 +60,7 @@ for k in ks:
         sh("git -C /repo checkout -- .", "/verif")
     rec["checks"] = res
     rec["detected_by"] = [c for c, r in res.items() if r["exit"] == 1 and r["violation"]]
-    d = f"/verif/seeded/{pid}-{k}"
+    d = f"/verif/seeded/{pid}-{int(k) + OFFSET}"
     os.makedirs(d, exist_ok=True)
     shutil.copyfile(diff, f"{d}/patch.diff")
     for f in glob.glob(f"{S}/demo{k}*"):
